@@ -129,4 +129,78 @@ theorem words_loop (f : Str) (v : Bytes) (m : Nat) : ∀ (j : Nat) (r : Int), v.
       rw [hne, hrest] at this
       exact this
 
+/-! ### the value the loop computes -/
+
+theorem beNat_append (a b : Bytes) : Py.beNat (a ++ b) = Py.beNat a * 256 ^ b.length + Py.beNat b := by
+  unfold Py.beNat
+  rw [List.foldl_append]
+  generalize List.foldl (fun a x => a * 256 + x.toNat) 0 a = s0
+  induction b generalizing s0 with
+  | nil => simp
+  | cons x xs ih =>
+    simp only [List.foldl_cons, List.length_cons]
+    rw [ih]
+    have h2 : List.foldl (fun a (x : UInt8) => a * 256 + x.toNat) (0 * 256 + x.toNat) xs
+        = (0 * 256 + x.toNat) * 256 ^ xs.length + List.foldl (fun a (x : UInt8) => a * 256 + x.toNat) 0 xs := ih _
+    rw [h2, Nat.pow_succ]
+    simp only [Nat.zero_mul, Nat.zero_add]
+    rw [Nat.add_mul, Nat.mul_assoc, Nat.mul_comm 256 (256 ^ xs.length), Nat.add_assoc]
+
+theorem foldl_be_lt (b : Bytes) : ∀ s0 : Nat, List.foldl (fun a (x : UInt8) => a * 256 + x.toNat) s0 b < (s0 + 1) * 256 ^ b.length := by
+  induction b with
+  | nil => intro s0; simp
+  | cons x xs ih =>
+    intro s0
+    simp only [List.foldl_cons, List.length_cons, Nat.pow_succ]
+    have hx : x.toNat < 256 := x.toNat_lt
+    calc List.foldl (fun a (x : UInt8) => a * 256 + x.toNat) (s0 * 256 + x.toNat) xs
+        < (s0 * 256 + x.toNat + 1) * 256 ^ xs.length := ih _
+      _ ≤ ((s0 + 1) * 256) * 256 ^ xs.length := Nat.mul_le_mul_right _ (by omega)
+      _ = (s0 + 1) * (256 ^ xs.length * 256) := by rw [Nat.mul_assoc, Nat.mul_comm 256]
+
+theorem beNat_lt (b : Bytes) : Py.beNat b < 256 ^ b.length := by
+  have := foldl_be_lt b 0
+  simpa [Py.beNat] using this
+
+theorem pow256_4 (m : Nat) : 256 ^ (4 * m) = 4294967296 ^ m := by
+  rw [Nat.pow_mul]
+
+theorem unpack_unsigned (a b c d : UInt8) : Py.unpack1 ['>', 'I'] [a, b, c, d] = some (Py.beNat [a, b, c, d] : Int) := by
+  simp [Py.unpack1]
+
+theorem word_lt (a b c d : UInt8) : Py.beNat [a, b, c, d] < 4294967296 := by
+  have := beNat_lt [a, b, c, d]
+  simpa using this
+
+/-- after the first word every word is unsigned: the loop appends the big-endian value of what is left -/
+theorem wordsFold_unsigned (f : Str) (m : Nat) : ∀ (w : Bytes) (r : Int), w.length = 4 * m →
+    wordsFold f false r w = some (r * (4294967296 : Int) ^ m + (Py.beNat w : Int)) := by
+  induction m with
+  | zero =>
+    intro w r hl
+    have : w = [] := List.eq_nil_of_length_eq_zero (by omega)
+    subst this
+    simp [wordsFold, Py.beNat]
+  | succ m ih =>
+    intro w r hl
+    match w, hl with
+    | a :: b :: c :: d :: rest, hl =>
+      have hr : rest.length = 4 * m := by simp at hl; omega
+      simp only [wordsFold, Bool.false_eq_true, if_false, unpack_unsigned, Option.bind_some]
+      rw [bor_shl r _ (word_lt a b c d), ih rest _ hr]
+      have happ : Py.beNat (a :: b :: c :: d :: rest) = Py.beNat [a, b, c, d] * 4294967296 ^ m + Py.beNat rest := by
+        have := beNat_append [a, b, c, d] rest
+        rw [hr, pow256_4] at this
+        exact this
+      have happ' : (Py.beNat (a :: b :: c :: d :: rest) : Int) = (Py.beNat [a, b, c, d] : Int) * (4294967296 : Int) ^ m + (Py.beNat rest : Int) := by
+        rw [happ, Int.natCast_add, Int.natCast_mul, Int.natCast_pow]
+        rfl
+      rw [happ']
+      congr 1
+      rw [Int.add_mul, Int.pow_succ, Int.mul_assoc, Int.mul_comm (4294967296 : Int) ((4294967296 : Int) ^ m), Int.add_assoc]
+    | [], hl => simp at hl
+    | [_], hl => simp at hl; omega
+    | [_, _], hl => simp at hl; omega
+    | [_, _, _], hl => simp at hl; omega
+
 end SshAudit.GenLogic
